@@ -11,7 +11,7 @@ import traceback
 from .model import AnalysisError, load_model
 
 VERIF = os.path.dirname(os.path.dirname(os.path.abspath(__file__)))
-EVIDENCE_DIR = os.path.join(VERIF, 'evidence')
+EVIDENCE_DIR = os.environ.get('VERIF_EVIDENCE_DIR') or os.path.join(VERIF, 'evidence')
 KNOWN_PATH = os.path.join(VERIF, 'known_findings.json')
 
 
